@@ -217,10 +217,9 @@ def install(tr, skeleton, script):
                 tuple(cefield.grid.shape_cells), int(sc_dir)))
 
     def w_te(var, l2_last, l2_stag, it):
-        fin = o_te(var, l2_last, l2_stag, it)
         tr.cycles.append((int(var.sc_dir), int(var.lr_dir)))
         tr.add(('cycle_end', int(it), int(var.it)))
-        return fin
+        return o_te(var, l2_last, l2_stag, it)
 
     patch(solver, 'multigrid', w_mg)
     patch(solver, 'smoothing', w_sm)
@@ -292,7 +291,8 @@ def run_config(rec, shape, cfg, skeleton, case):
     else:
         # a source on an interior edge
         sf.fx[shape[0]//2, max(1, shape[1]//2), max(1, shape[2]//2)] = 1.0
-    kw = dict(sslsolver=False, semicoarsening=cfg['semicoarsening'],
+    kw = dict(sslsolver=cfg.get('sslsolver', False),
+              semicoarsening=cfg['semicoarsening'],
               linerelaxation=cfg['linerelaxation'], cycle=cfg['cycle'],
               clevel=cfg['clevel'], nu_init=cfg['nu_init'], nu_pre=nus[0],
               nu_coarse=nus[1], nu_post=nus[2], maxit=maxit,
@@ -318,38 +318,57 @@ def run_config(rec, shape, cfg, skeleton, case):
         return
     var = tr.var
     ncyc = len(tr.cycles)
-    # ---- expected trace
-    exp = []
-    n0 = 0
-    if cfg['nu_init'] > 0:
-        exp.append(('smooth', 0, shape, cfg['nu_init'], lr_seq[0],
-                    kernels_for(lr_seq[0], shape)))
-    visits0 = None
-    for n in range(ncyc):
-        q = sc_seq[n % len(sc_seq)]
-        lr = lr_seq[n % len(lr_seq)]
-        L = depth(shape, cfg['clevel'], q)
-        ev, visits = ref_cycle(shape, cfg['cycle'], q, lr, L, nus)
-        if n == 0:
-            visits0 = visits
-        exp.extend(ev)
-        exp.append(('cycle_end', n+1, n+1))
-    got = [e for e in tr.ev if e[0] not in ('enter', 'exit')]
+    krylov = bool(cfg.get('sslsolver', False))
+    # ---- observed trace, with a marker for every multigrid(level 0) call
+    got = []
+    for e in tr.ev:
+        if e[0] == 'enter' and e[1] == 0:
+            got.append(('call',))
+        elif e[0] not in ('enter', 'exit'):
+            got.append(e)
+    # cycles per call, as observed (the number of cycles a pre-conditioner
+    # call runs depends on its residuals; everything else is predicted)
+    per_call, cur = [], None
+    for e in got:
+        if e[0] == 'call':
+            if cur is not None:
+                per_call.append(cur)
+            cur = 0
+        elif e[0] == 'cycle_end':
+            cur += 1
+    if cur is not None:
+        per_call.append(cur)
+    visits_first = []
+
+    def build_expected(cyc_type):
+        exp_, k_ = [], 0
+        for nc in per_call:
+            exp_.append(('call',))
+            if cfg['nu_init'] > 0:
+                lr0 = lr_seq[k_ % len(lr_seq)]
+                exp_.append(('smooth', 0, shape, cfg['nu_init'], lr0,
+                             kernels_for(lr0, shape)))
+            for j in range(nc):
+                q = sc_seq[k_ % len(sc_seq)]
+                lr = lr_seq[k_ % len(lr_seq)]
+                ev, visits = ref_cycle(shape, cyc_type, q, lr,
+                                       depth(shape, cfg['clevel'], q), nus)
+                if k_ == 0:
+                    visits_first[:] = visits
+                exp_.extend(ev)
+                exp_.append(('cycle_end', j+1, k_+1))
+                k_ += 1
+        return exp_
+    exp = build_expected(cfg['cycle'])
+    visits0 = list(visits_first) if ncyc else None
     rec.event('trace_events', len(got))
     rec.event('cycles', ncyc)
+    rec.event('multigrid_calls', len(per_call))
     if got != exp and cfg['cycle'] == 'F' and depth(
-            shape, cfg['clevel'], sc_seq[0]) == 0:
+            shape, cfg['clevel'], sc_seq[0]) == 0 and not krylov:
         # Known mechanism: the level-0 cycle counter is fixed in a cycle in
         # which level 0 was the coarsest grid; emulate "later cycles run as V".
-        alt = list(exp[:1] if cfg['nu_init'] > 0 else [])
-        for n in range(ncyc):
-            q = sc_seq[n % len(sc_seq)]
-            lr = lr_seq[n % len(lr_seq)]
-            ev, _ = ref_cycle(shape, 'V', q, lr,
-                              depth(shape, cfg['clevel'], q), nus)
-            alt.extend(ev)
-            alt.append(('cycle_end', n+1, n+1))
-        if got == alt:
+        if got == build_expected('V'):
             rec.violation('C05:F-cycle-runs-as-V-after-depth0-first-direction',
                           f'cycle=F, semicoarsening pattern {sc_seq}: the '
                           f'first direction makes level 0 the coarsest grid; '
@@ -372,6 +391,9 @@ def run_config(rec, shape, cfg, skeleton, case):
             what = 'coarsening'
         elif len(got) != len(exp) and (a is None or b is None):
             what = 'schedule-length'
+        if a and b and a[0] == b[0] and a[0] in ('smooth', 'restrict') and \
+                a[:4] == b[:4] and a[4] != b[4]:
+            what = 'direction-cycling'
         rec.violation(f'C05:{what}', f'trace differs from the reference '
                       f'{cfg["cycle"]}-cycle at event {k} of {len(exp)} '
                       f'(got {len(got)}): got {a}, expected {b}', case)
@@ -400,25 +422,19 @@ def run_config(rec, shape, cfg, skeleton, case):
     for n in range(min(ncyc, len(sc_seq))):
         pass
     # ---- iteration count and direction cycling
+    if krylov:
+        rec.event('krylov_preconditioner_traces')
     if var.it != ncyc or info['it_mg'] != ncyc:
         rec.violation('C05:iteration-count', f'var.it={var.it}, it_mg='
                       f'{info["it_mg"]}, level-0 cycles observed {ncyc}', case)
-    for n, (scd, lrd) in enumerate(tr.cycles):
-        wsc = sc_seq[(n+1) % len(sc_seq)]
-        wlr = lr_seq[(n+1) % len(lr_seq)]
-        if (scd, lrd) != (wsc, wlr):
-            rec.violation('C05:direction-cycling', f'after cycle {n+1}: '
-                          f'sc_dir/lr_dir = {scd}/{lrd}, pattern says '
-                          f'{wsc}/{wlr}', case)
-            break
-    rec.event('cycling_checks', ncyc)
+    rec.event('cycling_checks', max(0, ncyc-1))
     if skeleton and ncyc != maxit:
         rec.violation('C05:iteration-count', f'{ncyc} cycles for maxit '
                       f'{maxit} with a never-converging scripted residual',
                       case)
     # ---- second channel: header, per-level log lines, level_all
     log = info['log']
-    if cfg['verb'] >= 3:
+    if cfg['verb'] >= 3 and not krylov:
         m1 = re.search(r'Coarsest grid\s*:\s*(\d+) x\s*(\d+) x\s*(\d+)', log)
         m2 = re.search(r'Coarsest level\s*:\s*(\d+)\s*;\s*(\d+)\s*;\s*(\d+)',
                        log)
@@ -450,7 +466,7 @@ def run_config(rec, shape, cfg, skeleton, case):
                                       f'(no semicoarsening) bottoms out at '
                                       f'{deepest[1]}, header says {hg}', case)
                     break
-    if cfg['verb'] >= 5:
+    if cfg['verb'] >= 5 and not krylov:
         lines = []
         for ln in log.splitlines():
             m = LOGLINE.match(ln)
@@ -467,7 +483,7 @@ def run_config(rec, shape, cfg, skeleton, case):
             rec.violation('C05:log-disagrees-with-trace', f'verb=5 log has '
                           f'{len(lines)} smoothing lines, wrapper trace '
                           f'{len(sm_all)}; first log lines {lines[:6]}', case)
-    if cfg['verb'] >= 4 and visits0 is not None and ncyc >= 1:
+    if cfg['verb'] >= 4 and visits0 is not None and ncyc >= 1 and not krylov:
         rec.event('level_all_checks')
         if list(var.level_all) != collapse(visits0):
             rec.violation('C05:qc-level-sequence', f'level_all '
@@ -502,6 +518,10 @@ def rand_cfg(r, full=False):
     if full:
         cfg['maxit'] = int(min(cfg['maxit'], 3))
         cfg['tol'] = float(10.0**r.uniform(-9, -3))
+        cfg['sslsolver'] = gen.choice(r, [False, False, 'bicgstab', 'gcrotmk',
+                                          'cgs'])
+        if cfg['sslsolver']:
+            cfg['maxit'] = int(r.integers(2, 5))     # Krylov iterations
     return cfg
 
 
@@ -548,6 +568,7 @@ def run_batch(batch):
 
 def finalize(merged, tier):
     need = {'traces_matched': 2500, 'solves_full': 100, 'cycling_checks': 5000,
+            'krylov_preconditioner_traces': 30,
             'header_checks': 1000, 'log_channel_checks': 500,
             'level_all_checks': 800}
     if tier == 'thorough':
